@@ -146,6 +146,11 @@ def run(ctx):
     else:
         ctx.violation("N2", dis, "wrapper-shape", "disablefilter builds %s, not if/false" % built, node=dis.node)
 
+    # the saved status is the wrapping: flag and wrapping must stay paired through update / replace / disable / enable (O2, O5 of C12)
+    from .c12 import o2, o5
+    o2(ctx, R)
+    o5(ctx, R)
+
     # ---- N3 -----------------------------------------------------------------------
     ctx.rule("N3", "hash comments: collected in the token loop, attached to the next top-level command, collector emptied after attach and in reset")
     parse = PR.parse
